@@ -610,12 +610,14 @@ def exc_name(e):
 
 
 def _raised_inside(e, package):
+    """was the exception raised by code of `package` that adaptix called (a frame of the package below the last adaptix frame)?"""
+    frames = []
     tb = e.__traceback__
-    last = None
     while tb is not None:
-        last = tb
+        frames.append(tb.tb_frame.f_code.co_filename)
         tb = tb.tb_next
-    return last is not None and f"/site-packages/{package}/" in last.tb_frame.f_code.co_filename
+    last_adaptix = max((i for i, f in enumerate(frames) if "/adaptix/" in f), default=-1)
+    return any(f"/site-packages/{package}/" in f for f in frames[last_adaptix + 1:])
 
 
 class Evaluator:
